@@ -429,6 +429,21 @@ func c18Concurrent(r *Run, kind string, rounds int) {
 		r.Violate("key-returned-another-keys-value/concurrent-misses-of-colliding-keys/"+kind, fmt.Sprintf("%s on %s: %d of %d concurrent Gets of absent keys with colliding hashes returned another key's value (first: %v)", cs.Type, cs.Toolchain, w, rounds*G, first.Load()),
 			map[string]any{"case": cs, "wrong": w, "loader_runs": loads.Load()})
 	}
+	// every key is cached in memory now (MaxSize is twice the number of keys): a second Get through an equal key
+	// built afresh must find that entry - no loader run, no trip to the secondary store
+	l0, g0 := loads.Load(), sec.gets.Load()
+	again := 0
+	for i := 0; i < rounds*G; i++ {
+		dirtyStack(byte(i))
+		if v, ok := get(kWithStr{ID: i, Name: strings.Clone("c" + strconv.Itoa(i))}); ok && v == f(mk(i)) {
+			again++
+		}
+	}
+	if dl, dg := loads.Load()-l0, sec.gets.Load()-g0; dl > 0 || dg > 0 {
+		r.Violate("equal-key-missed/second-get-through-an-equal-key/"+kind, fmt.Sprintf("%s on %s: %d keys were loaded / promoted into a cache large enough to hold them all, yet a second Get of each through an equal key built afresh ran the loader %d times and asked the secondary store %d times (want 0 and 0)", cs.Type, cs.Toolchain, rounds*G, dl, dg),
+			map[string]any{"case": cs, "loader_runs": dl, "secondary_gets": dg})
+	}
+	r.Count("second_gets_through_equal_keys", int64(again))
 	// a miss is not this property's business (nothing aliased); it is counted for the evidence
 	r.Count("concurrent_colliding_gets_missed", missed.Load())
 	r.Eval(1)
